@@ -392,6 +392,8 @@ func checkC15(w *World, r *Report) {
 	checkGenValidEnd(w, r, tm)
 	checkGenParams(w, r, tm, initTree, exportTree)
 	checkGenValidPos(w, r, tm)
+	// ids drawn after an import are fresh, and every imported bid is numbered by its auction's counter
+	r.Sub(checkC19, "ID-MONO")
 
 	// ------------------------------------------------------------ GEN-DUPKEY
 	validate := w.methodOf(gs, "Validate")
